@@ -342,3 +342,124 @@ Example C03_declared_example_refused :
                                        ["h"%string] |};
          d_decl := decl_script |} = false.
 Proof. vm_compute. reflexivity. Qed.
+
+(** ---- COMPLETENESS of the model: when [generate] succeeds (Proofs/C03_Succeeds.v) ---- *)
+From Elfi Require Import Proofs.C02_Success Proofs.C03_Succeeds.
+
+(** A sufficient condition, on the source net alone, for [generate] to return a result: a well-formed
+    net whose nodes carry exactly one of output / operation ([out_ok]), which passes the compiler's
+    topological check, in which no node is named like the observed twin of an observable /
+    observed-using node, whose observed data depends on no stochastic node, and in which the parents
+    of an observed-using node (copied to its args_to_tuple twin) are all positional; requested
+    outputs are nodes or twins; supplied values have distinct, non-reserved names. *)
+Theorem C03_generate_succeeds :
+  forall src outs W,
+    wfsrc src ->
+    forallb out_ok (s_nodes src) = true ->
+    topo_ok src = true ->
+    twins_fresh src ->
+    stochastic_observed src = false ->
+    tuple_positional src ->
+    outputs_wf src outs -> NoDup (map fst W) -> (forall k, In k (map fst W) -> ~ In k inames) ->
+    exists out log, generate src outs W = Ok (out, log).
+Proof. exact generate_succeeds. Qed.
+Print Assumptions C03_generate_succeeds.
+
+(** Existence + soundness: under these hypotheses [generate] returns, for exactly the sorted distinct
+    requested outputs, their user-level meaning [den_name], and the run passes [Denote.ok]. *)
+Theorem C03_generate_total_and_sound :
+  forall src outs W,
+    wfsrc src -> forallb out_ok (s_nodes src) = true -> topo_ok src = true -> twins_fresh src ->
+    stochastic_observed src = false -> tuple_positional src ->
+    outputs_wf src outs -> NoDup (map fst W) -> (forall k, In k (map fst W) -> ~ In k inames) ->
+    exists out log,
+      generate src outs W = Ok (out, log)
+      /\ map fst out = sort_names (dedup_names outs)
+      /\ (forall o v, In (o, v) out -> den_name src W o = Some v)
+      /\ ok {| k_src := src; k_outputs := outs; k_with := W; k_impl := ImplOk out (op_log src log) |} = true.
+Proof. exact generate_total_and_sound. Qed.
+Print Assumptions C03_generate_total_and_sound.
+
+(** The refusal for stochastic observed data is exact: when the first three compiler stages pass,
+    observed data depending on a stochastic node makes compilation (hence [generate]) fail with
+    [EStochasticObserved b] for a stochastic node [b] ... *)
+Theorem C03_stochastic_observed_refused :
+  forall src outs,
+    wfsrc src -> forallb out_ok (s_nodes src) = true -> topo_ok src = true -> twins_fresh src ->
+    stochastic_observed src = true ->
+    exists b, compile src outs = Err (EStochasticObserved b) /\ flag src s_stochastic b = true.
+Proof. exact stochastic_observed_refused. Qed.
+Print Assumptions C03_stochastic_observed_refused.
+
+(** ... and compilation succeeds exactly when there is none. *)
+Theorem C03_compile_ok_iff :
+  forall src outs,
+    wfsrc src -> forallb out_ok (s_nodes src) = true -> topo_ok src = true -> twins_fresh src ->
+    ((exists g, compile src outs = Ok g) <-> stochastic_observed src = false).
+Proof. exact compile_ok_iff. Qed.
+Print Assumptions C03_compile_ok_iff.
+
+(** The executor succeeds on every net whose edges have a ranking (acyclic), join existing nodes,
+    whose nodes carry exactly one of output / operation, whose args_to_tuple nodes have positional
+    parents only, and whose requested outputs exist. *)
+Theorem C03_execute_total :
+  forall g so,
+    sort_order g = Ok so ->
+    (forall a x b, so = a ++ x :: b -> forall y p, In (x, y, p) (c_edges g) -> In y b) ->
+    (forall x, In x so -> has x (c_nodes g) = true) ->
+    eclosed g ->
+    (forall n c, lookup n (c_nodes g) = Some c ->
+       (c_out c = None /\ c_op c <> None) \/ (c_out c <> None /\ c_op c = None)) ->
+    (forall n c, lookup n (c_nodes g) = Some c -> c_op c = Some OpTuple ->
+       forall u p, In (u, p) (preds (c_edges g) n) -> exists i, p = PInt i) ->
+    (forall o, In o (c_outputs g) -> has o (c_nodes g) = true) ->
+    exists r, execute g empty_cache = Ok r.
+Proof. exact execute_total. Qed.
+Print Assumptions C03_execute_total.
+
+(** The name-sorted DFS order exists for ranked (acyclic) edges and is topological. *)
+Theorem C03_sort_order_total :
+  forall g (r : name -> nat),
+    (forall u v p, In (u, v, p) (c_edges g) -> r u < r v) -> exists so, sort_order g = Ok so.
+Proof. exact sort_order_total. Qed.
+Print Assumptions C03_sort_order_total.
+
+Theorem C03_sort_order_topological :
+  forall g so, sort_order g = Ok so ->
+    forall a x b, so = a ++ x :: b -> forall y p, In (x, y, p) (c_edges g) -> In y b.
+Proof. exact sort_order_topo. Qed.
+Print Assumptions C03_sort_order_topological.
+
+(** Non-vacuity: the hypotheses hold of [ex_src] (through their decidable forms), so the theorem
+    yields the run [C03_example] without computing it. *)
+Example C03_generate_succeeds_example :
+  exists out log,
+    generate ex_src ["d"%string; "_d_observed"%string] [] = Ok (out, log)
+    /\ map fst out = ["_d_observed"%string; "d"%string]
+    /\ (forall o v, In (o, v) out -> den_name ex_src [] o = Some v).
+Proof.
+  assert (Hwf : wfsrc ex_src) by (apply wfsrc_b_sound; vm_compute; reflexivity).
+  destruct (C03_generate_total_and_sound ex_src ["d"%string; "_d_observed"%string] [] Hwf) as [out [log [Hg [Hk [Hd _]]]]].
+  - vm_compute; reflexivity.
+  - vm_compute; reflexivity.
+  - apply twins_fresh_b_sound. vm_compute; reflexivity.
+  - vm_compute; reflexivity.
+  - apply tuple_positional_b_sound. vm_compute; reflexivity.
+  - apply (outputs_wf_b_sound _ _ (wf_nodup _ Hwf)). vm_compute; reflexivity.
+  - constructor.
+  - intros k [].
+  - exists out, log. split; [exact Hg|]. split; [rewrite Hk; vm_compute; reflexivity | exact Hd].
+Qed.
+
+(** FINDING about the predicate [ok]: [tuple_positional] is not implied by [Denote.wf_case].  A
+    constant feeding an observed-using operation through a NAMED parameter is [wf_case] and has no
+    stochastic observed data, yet the model refuses it ([EBadCall] on the args_to_tuple twin): [ok]
+    evaluates to [false] on the refusal although model and a refusing implementation [agree]. *)
+Example C03_tuple_named_parent_refused :
+  generate np_src ["d"%string] [] = Err (EBadCall "_d_observed"%string)
+  /\ wfsrc_b np_src = true
+  /\ wf_case {| k_src := np_src; k_outputs := ["d"%string]; k_with := []; k_impl := ImplErr |} = true
+  /\ stochastic_observed np_src = false
+  /\ ok {| k_src := np_src; k_outputs := ["d"%string]; k_with := []; k_impl := ImplErr |} = false
+  /\ agree {| k_src := np_src; k_outputs := ["d"%string]; k_with := []; k_impl := ImplErr |} = true.
+Proof. exact tuple_named_parent_refused. Qed.
